@@ -120,9 +120,9 @@ def kw_lemma(words):
 
 
 def main():
-    kw('group')
+    kw('group'); kw('all'); kw('clear'); kw('disable'); kw('enable')
     out = ['# >>> generated by tools/gen_defs.py (oracle table there) - do not edit by hand']
-    words = ['list']
+    words = ['list', 'tagtypes']
     for c in T:
         line = lit(c['word'])
         for a in c['args']:
